@@ -168,7 +168,26 @@ CHECKS["C10"] = dict(level="fault_enumeration", ref="DESIGN.md §4 C10, §9",
          "code. Open known findings P24 / P24b: pools and abnormally terminated owners take their children down asynchronously, so a stop call can return first.",
     tech="TLA+ model TreeModel model-checked by TLC; fault scripts executed on real supervision trees, end states validated by TLC against spec/Tree.tla")
 
+CHECKS["C16"] = dict(level="exploration", ref="DESIGN.md §4 C16, §9",
+    text="TLA+ model Frame of the frame reader (bytes arrive in arbitrary segments; the length field may lie in either direction, be below the header size or beyond the "
+         "limit) is model-checked exhaustively for small streams: FramesPreserved / AllDelivered / OverLimitCloses / NoCrash hold for the repaired reader and TLC must "
+         "find the crash of the former one. An explicit mutation grammar is then driven against the real code and every observation is judged by TLC with "
+         "spec/Hostile.tla: (a) after a genuine handshake a mutated frame (8 honest frame kinds x length field values, magic, version, 29 type bytes, truncation at every "
+         "offset 8-59, body byte flips, compressed-envelope size / method, random frames, with and without a size limit) is injected into the live connection; the "
+         "attacked node must not die, a request between two local processes and one over an unrelated connection must still be served, in bounded time and live-heap "
+         "growth; (b) the real decoder is fed with mutated encodings of a 20-value corpus (truncation, 0xff / 0x00 at every offset, type tags, duplicated tails): value or "
+         "error, no panic, no hang, allocation bounded by 64 x input + 8 MiB, and a decoded value re-encodes to bytes that decode to an equal value.",
+    note="Trusted: TLC. 'All byte strings' is not enumerable: coverage is the mutation grammar (plus seeded random frames); the handshake reader is attacked in C15's "
+         "replay / garbage / truncation cases. Open known finding P12b (declared unpacked size is allocated up front).",
+    tech="TLA+ model Frame model-checked by TLC; mutated frames injected into a live connection and mutated encodings fed to the real decoder, observations validated by TLC against spec/Hostile.tla")
+
 NOT_YET = {
+    "C11": "the specification technique does not apply: C11 is a round-trip law of one pure function pair (edf.Encode / edf.Decode) over a value space - there is no state, "
+           "no interleaving and no history for a TLA+ model to explore, and transcribing the codec (about 2000 lines of reflection-driven case analysis) into TLA+ would "
+           "verify the transcription, not the code. DESIGN.md §5 and §9 say what a value-generating round-trip harness would look like and record the two defects found by "
+           "reading and probing (P13: strings of 65534 / 65535 bytes, error texts containing '%'); they are not claimed here. The hostile-input side of the decoder "
+           "(crash, hang, allocation, re-encode stability of what decodes) is covered by C16.",
+
 }
 
 
